@@ -168,8 +168,95 @@ func extractLifecycle(p *pkgs, f *facts) {
 	} else {
 		f.miss = append(f.miss, "Client.reattach")
 	}
-	f.lean = append(f.lean, fmt.Sprintf("def lifecycle : Lifecycle.Params := ⟨%s, %s, %s, %s, %s⟩",
-		leanBool(retryGuard), leanBool(addrSC), leanBool(clientCached), leanBool(killRemovesDir), leanBool(testNoRunner)))
+	keepsTest, keepsWhy := reattachConfigKeepsTest(p)
+	f.lean = append(f.lean, fmt.Sprintf("def lifecycle : Lifecycle.Params := ⟨%s, %s, %s, %s, %s, %s⟩",
+		leanBool(retryGuard), leanBool(addrSC), leanBool(clientCached), leanBool(killRemovesDir), leanBool(testNoRunner), leanBool(keepsTest)))
 	f.set("lifecycle", map[string]interface{}{"retryGuard": retryGuard, "addrShortCircuit": addrSC, "clientCached": clientCached,
-		"killRemovesDir": killRemovesDir, "testModeNoRunner": testNoRunner})
+		"killRemovesDir": killRemovesDir, "testModeNoRunner": testNoRunner, "reattachConfigKeepsTest": keepsTest, "reattachConfigKeepsTestWhy": keepsWhy})
+}
+
+// reattachConfigKeepsTest: Client.ReattachConfig of a client that was itself created by
+// reattaching hands back the configuration it was given (hence its Test flag).
+//
+// Accepted shapes (anything else = false).  Among the TOP-LEVEL statements of ReattachConfig,
+// before any statement that mentions a ReattachConfig composite literal, there is
+// `if <recv>.config.Reattach != nil { … }` (no init, no else) whose body is
+//
+//	(a) the single statement `return <recv>.config.Reattach`, or
+//	(b) `X := *<recv>.config.Reattach` followed only by assignments to fields of X other than
+//	    Test, and `return &X`;
+//
+// and every top-level statement before it is a Lock call, a defer, or an `if` whose body is the
+// single statement `return nil`.
+func reattachConfigKeepsTest(p *pkgs) (bool, string) {
+	fn := p.fn("Client", "ReattachConfig")
+	if fn == nil || recvName(fn) == "" {
+		return false, "Client.ReattachConfig not found"
+	}
+	cfg := recvName(fn) + ".config.Reattach"
+	mentionsLit := func(n ast.Node) bool {
+		found := false
+		ast.Inspect(n, func(m ast.Node) bool {
+			if cl, ok := m.(*ast.CompositeLit); ok && cl.Type != nil && exprString(cl.Type) == "ReattachConfig" {
+				found = true
+			}
+			return true
+		})
+		return found
+	}
+	for _, s := range fn.Body.List {
+		if mentionsLit(s) {
+			return false, "a ReattachConfig literal is built before (or instead of) returning " + cfg
+		}
+		switch x := s.(type) {
+		case *ast.ExprStmt, *ast.DeferStmt:
+			continue
+		case *ast.IfStmt:
+			if x.Init != nil || x.Else != nil {
+				return false, "unrecognised conditional before the reattach branch"
+			}
+			c := exprString(x.Cond)
+			if c == cfg+"!=nil" || c == "nil!="+cfg {
+				body := x.Body.List
+				if len(body) == 1 {
+					if r, ok := body[0].(*ast.ReturnStmt); ok && len(r.Results) == 1 && exprString(r.Results[0]) == cfg {
+						return true, "returns " + cfg + " as-is"
+					}
+				}
+				if len(body) >= 2 {
+					as, ok := body[0].(*ast.AssignStmt)
+					r, ok2 := body[len(body)-1].(*ast.ReturnStmt)
+					if ok && ok2 && as.Tok == token.DEFINE && len(as.Lhs) == 1 && len(as.Rhs) == 1 && exprString(as.Rhs[0]) == "*"+cfg &&
+						len(r.Results) == 1 && exprString(r.Results[0]) == "&"+exprString(as.Lhs[0]) {
+						v := exprString(as.Lhs[0])
+						good := true
+						for _, m := range body[1 : len(body)-1] {
+							a2, ok := m.(*ast.AssignStmt)
+							if !ok || a2.Tok != token.ASSIGN || len(a2.Lhs) != 1 {
+								good = false
+								break
+							}
+							l := exprString(a2.Lhs[0])
+							if !strings.HasPrefix(l, v+".") || l == v+".Test" {
+								good = false
+							}
+						}
+						if good {
+							return true, "returns a copy of *" + cfg
+						}
+					}
+				}
+				return false, "the reattach branch does not return the given configuration"
+			}
+			if len(x.Body.List) == 1 {
+				if r, ok := x.Body.List[0].(*ast.ReturnStmt); ok && len(r.Results) == 1 && exprString(r.Results[0]) == "nil" {
+					continue
+				}
+			}
+			return false, "unrecognised conditional before the reattach branch"
+		default:
+			return false, "unrecognised statement before the reattach branch"
+		}
+	}
+	return false, "no `if " + cfg + " != nil` branch"
 }
